@@ -42,7 +42,7 @@ func failedOn(p *core.Path, call ssa.Value) bool {
 	}
 	is := core.ErrOf(call)
 	for _, f := range p.Conds {
-		c, ok := core.AsCmp(f.Cond, f.Val)
+		c, ok := core.FactCmp(f)
 		if !ok || c.Op != token.NEQ {
 			continue
 		}
@@ -95,7 +95,7 @@ func c17(w *core.World, r *core.Report) {
 			n++
 			guarded := false
 			for _, fct := range core.FactsAt(d.Instr.Block()) {
-				c, ok := core.AsCmp(fct.Cond, fct.Val)
+				c, ok := core.FactCmp(fct)
 				if !ok || c.Op != token.NEQ {
 					continue
 				}
@@ -141,18 +141,41 @@ func ruleStaleGC(w *core.World, r *core.Report) {
 		except := paramOf(f, "bool", "exceptNewest")
 		maxPhi, argOfMax := argmaxIdiom(f, "Offset")
 		var hdel []core.Site
+		doesHdel := func(g *ssa.Function) bool {
+			for _, s := range core.Sites(g, false) {
+				if s.Method == "Do" {
+					if cmd, ok := core.CmdName(s); ok && cmd == "hdel" {
+						return true
+					}
+				}
+			}
+			return false
+		}
 		for _, s := range core.Sites(f, false) {
 			if s.Method == "Do" {
 				if cmd, ok := core.CmdName(s); ok && cmd == "hdel" {
 					hdel = append(hdel, s)
 				}
 			}
+			// or through a helper shared with the other deletions
+			if s.Callee != nil && s.Callee.Parent() == nil && len(s.Callee.Blocks) > 0 && s.Instr.Parent() == f && doesHdel(s.Callee) {
+				hdel = append(hdel, s)
+			}
 		}
 		if len(hdel) == 0 || except == nil {
 			r.Unresolved("DelStaleCheckpoint/hdel", "deletion site or exceptNewest parameter not found")
 		}
 		for _, h := range hdel {
-			head := core.LoopHeadOf(h.Instr.Block())
+			// the deletion may sit in a helper written for this loop alone: the loop is the one around its call
+			at := h.Instr
+			for at.Parent() != f {
+				c := core.ExpandedInto(at.Parent())
+				if c == nil {
+					break
+				}
+				at = c
+			}
+			head := core.LoopHeadOf(at.Block())
 			if head == nil {
 				r.Undecided("DelStaleCheckpoint/hdel", h.Pos(), "deletion is not inside the per-database loop")
 				continue
@@ -201,7 +224,7 @@ func ruleStaleGC(w *core.World, r *core.Report) {
 				// not younger than the threshold
 				young := true
 				for _, fct := range p.Conds {
-					c, ok := core.AsCmp(fct.Cond, fct.Val)
+					c, ok := core.AsCmp(p.Resolve(fct.Cond), fct.Val)
 					if !ok {
 						continue
 					}
@@ -220,7 +243,7 @@ func ruleStaleGC(w *core.World, r *core.Report) {
 					spared = true
 				}
 				for _, fct := range p.Conds {
-					c, ok := core.AsCmp(fct.Cond, fct.Val)
+					c, ok := core.AsCmp(p.Resolve(fct.Cond), fct.Val)
 					if ok && c.Op == token.NEQ {
 						if ph, isPhi := core.Unwrap(c.Y).(*ssa.Phi); isPhi && argOfMax[ph] {
 							spared = true
@@ -257,8 +280,11 @@ func ruleStaleGC(w *core.World, r *core.Report) {
 		return
 	}
 	n := 0
-	for _, g := range core.DeepFuncs(f) {
+	for _, g := range reachableFuncs(f) {
 		for _, s := range core.SitesNamed(g, false, "pkg/redis/checkpoint.DelStaleCheckpoint") {
+			if s.Instr.Parent() != g {
+				continue
+			}
 			n++
 			a := s.Args()
 			isExist := func(v ssa.Value) bool {
@@ -283,7 +309,7 @@ func ruleStaleGC(w *core.World, r *core.Report) {
 					if !fct.Val && isExist(fct.Cond) {
 						dead = true
 					}
-					if c, ok := core.AsCmp(fct.Cond, fct.Val); ok && c.Op == token.EQL {
+					if c, ok := core.FactCmp(fct); ok && c.Op == token.EQL {
 						e1, ok1 := c.X.(*ssa.Extract)
 						e2, ok2 := c.Y.(*ssa.Extract)
 						if ok1 && ok2 && e1.Tuple == s.Value() && e2.Tuple == s.Value() && e1.Index+e2.Index == 1 {
